@@ -98,7 +98,9 @@ func selfTestSelect() error {
 	return nil
 }
 
-var c12Names = []string{"a", "b", "foo", "bar", "k0", "é", "键", "", "a b", "a.b", "x[0]", "with-dash", "$d", "_u", "UP", "0", "-1", "1", "null", "a?"}
+var c12Names = []string{"a", "b", "foo", "bar", "k0", "é", "键", "", "a b", "a.b", "x[0]", "with-dash", "$d", "_u", "UP", "0", "-1", "1", "null", "a?",
+	// what a text escaper would rewrite: a tab, a zero-width joiner, a byte that is not UTF-8
+	"a\tb", "a\u200db", "k\xff", "/"}
 
 func c12Data(r *rand.Rand, depth int) ref.V {
 	switch k := r.IntN(12); {
@@ -134,7 +136,9 @@ func c12Data(r *rand.Rand, depth int) ref.V {
 	case k == 10:
 		return ref.Null()
 	default:
-		return gen.Pick(r, []ref.V{ref.Bool(true), ref.Float(1.5), ref.Int(0), ref.Str("x"), ref.List(), ref.Map(), ref.Map(), ref.List()})
+		return gen.Pick(r, []ref.V{ref.Bool(true), ref.Float(1.5), ref.Int(0), ref.Str("x"), ref.List(), ref.Map(), ref.Map(), ref.List(),
+			// real maps that SPELL what DAG-JSON reserves for bytes and links
+			ref.Map(ref.E("/", ref.Map(ref.E("bytes", ref.Str("AQID"))))), ref.Map(ref.E("/", ref.Str("bafkqaaa"))), ref.Map(ref.E("/", ref.Map(ref.E("bytes", ref.Str(""))))), ref.Map(ref.E("/", ref.Int(1)))})
 	}
 }
 
